@@ -7,13 +7,13 @@ no case reached.  A line the cases never reach is a place where a change cannot 
 the list is used to aim generators (DESIGN.md 14.11)."""
 import glob, gzip, json, os, subprocess, sys
 ROOT = os.path.dirname(os.path.dirname(os.path.abspath(__file__)))
-COV = os.path.join(ROOT, "build", "cov")
+COV = os.path.join(ROOT, "build", "cov_%d" % os.getpid())     # private per invocation: several authors may measure at once
 
 
 def main():
     props = sys.argv[1:] or ["C%02d" % i for i in range(1, 21)]
     subprocess.run("rm -rf %s; mkdir -p %s" % (COV, COV), shell=True)
-    env = dict(os.environ, VERIF_COVERAGE="1", VERIF_EVIDENCE_DIR="/var/tmp/verif_cov_evidence")
+    env = dict(os.environ, VERIF_COVERAGE=COV, VERIF_EVIDENCE_DIR="/var/tmp/verif_cov_evidence_%d" % os.getpid())
     for p in props:
         r = subprocess.run(["python3", os.path.join(ROOT, "tools", "check.py"), p, "--tier", "quick"], env=env, stdout=subprocess.PIPE, stderr=subprocess.STDOUT, text=True)
         print(p, r.stdout.strip().split("\n")[-1], flush=True)
@@ -46,6 +46,7 @@ def main():
         print("%-18s %5d / %5d  unreached: %s" % (h, ex - len(un), ex, _ranges(un)[:400]))
     print("TOTAL %d / %d (%.1f %%)" % (tot_c, tot_e, 100.0 * tot_c / max(1, tot_e)))
     json.dump(out, open(os.path.join(ROOT, "build", "coverage.json"), "w"), indent=1)
+    subprocess.run("rm -rf %s /var/tmp/verif_cov_evidence_%d" % (COV, os.getpid()), shell=True)
 
 
 def _ranges(xs):
